@@ -122,6 +122,10 @@ class MeshKind(Kind):
             m.visual.face_colors = (np.arange(len(m.faces) * 4).reshape(-1, 4) * 5 % 255).astype(np.uint8)
         elif self.variant == "vertex_color":
             m.visual.vertex_colors = (np.arange(len(m.vertices) * 4).reshape(-1, 4) * 7 % 255).astype(np.uint8)
+        elif self.variant == "painted":
+            # nothing assigned: default colours looked at, then painted in place (the README idiom)
+            m.visual.face_colors[0]
+            m.visual.vertex_colors[::2] = [255, 0, 0, 255]
         elif self.variant == "texture":
             from PIL import Image
             img = Image.fromarray((np.arange(48).reshape(4, 4, 3) * 5).astype(np.uint8))
@@ -164,6 +168,10 @@ class MeshKind(Kind):
             def fc_inplace(o):
                 o.visual.face_colors[1] = [9, 8, 7, 255]
             param += [("visual.face_colors=", fc), ("visual.face_colors[1]=", fc_inplace)]
+        elif self.variant == "painted":
+            def paint_more(o):
+                o.visual.vertex_colors[1::2] = [0, 0, 255, 255]
+            param += [("visual.vertex_colors[1::2]=", paint_more)]
         elif self.variant == "vertex_color":
             def vc(o):
                 c = np.array(o.visual.vertex_colors)
@@ -407,7 +415,7 @@ class VoxelKind(Kind):
 
 
 def all_kinds():
-    return [MeshKind("face_color"), MeshKind("vertex_color"), MeshKind("texture"), MeshKind("plain"),
+    return [MeshKind("face_color"), MeshKind("vertex_color"), MeshKind("texture"), MeshKind("plain"), MeshKind("painted"),
             PrimKind("box"), PrimKind("sphere"), PrimKind("cylinder"), PrimKind("capsule"), PrimKind("extrusion"),
             PathKind(2), PathKind(3), CloudKind(), SceneKind(), VoxelKind()]
 
